@@ -13,6 +13,18 @@ COMMON_NOTE = ("Trusted: Lean 4.33.0 kernel; axioms per theorem as printed by #p
 
 # property id -> dict(level, text, technique, note, design_ref)
 CLAIMED = {
+    "C09": dict(
+        level="proof",
+        text="Lean theorems about a step-by-step model of Collector::collect (trace_non_roots, mark_heap, finalize, second mark_heap, "
+             "sweep): mark_is_reachability (worklist marking = reachability, any heap, any queue), trace_terminates, "
+             "mark_heap_is_reachability, roots_are_external_handles (saturating non-root counting under the reference-count invariant), "
+             "safety and completeness/exactly-once for one collection of any heap without ephemerons. PARTIAL: the ephemeron fix-point, "
+             "weak maps and the preservation of the reference-count invariant along histories are covered by the executable model and the "
+             "correspondence run (all short histories + random long ones, observation after every operation), not by theorems; finalizer "
+             "resurrection is a recorded known finding.",
+        technique="Lean 4 invariant proofs over a model of the collector + differential correspondence run against boa_gc with an abstract reachability oracle",
+        note="Modelled, not verified: unsafe pointer code of boa_gc; finalizers assumed not to create handles (NoResurrect).",
+    ),
     "C11": dict(
         level="proof",
         text="Lean theorems for every JsStr operation on both encodings: op_agrees_with_units (each of 17 operations equals the same "
